@@ -2,8 +2,21 @@
 """Regenerates MANIFEST.json from the table below (kept next to DESIGN.md section 0)."""
 import json, subprocess
 
+ROUTER_NOTE = "Trusted: the reference broker model (spec.rs: acceptance-order log, per-subscription expected streams, MQTT matcher), the argument that single-threaded interleaving at buffer/channel granularity covers the threaded broker (DESIGN.md 1.1), release semantics (debug assertions off). The per-connection task is a link actor, not remote() itself (netsim runs the real one)."
 CLAIMED = {
  # id: (engine, level, design_ref, text, note, technique)
+ "C01": ("routersim", "exploration", "DESIGN.md 5.1, 6/C01",
+   "Seeded search over client histories x router/link schedules x router configurations with the real Router::run_inner; every Forward drained by a client is attributed (subset construction over possible assignments) to the next expected element of one of its subscriptions in a reference model fed with the observed acceptance order; completeness checked at forced quiescence points; retention gaps excused only against the broker's own log head. Sampling, not proof.",
+   ROUTER_NOTE, "deterministic simulation with seeded scheduler + reference model"),
+ "C03": ("routersim", "exploration", "DESIGN.md 5.1, 6/C03",
+   "Seeded search over histories with takeover, stale events, persistent sessions, shared groups, unknown-filter/multi-filter unsubscribes, wills; every router step under catch_unwind, no step may return an error, well-behaved connections may not be closed. Sampling, not proof.",
+   ROUTER_NOTE, "deterministic simulation with fault injection (stale events, drops, takeover), panic oracle"),
+ "C06": ("routersim", "exploration", "DESIGN.md 5.1, 6/C06",
+   "Every DeviceAck drained from a connection is compared with a per-connection ledger of replies owed in request order (PUBACK/PUBREC/PUBCOMP/SUBACK codes/UNSUBACK/PINGRESP, PUBRELs separately), under seeded schedules that put requests into every pause state. Sampling, not proof.",
+   ROUTER_NOTE, "deterministic simulation with seeded scheduler + request/ack ledger"),
+ "C09": ("routersim", "exploration", "DESIGN.md 5.1, 6/C09",
+   "Window invariants (<=100 awaiting ack, non-zero unique ids) checked on every forward from the client's side under backlogs up to several hundred messages and all ack pacings; no-lost-wakeup: at quiescence (acks and drains only, no new stimulus) the whole backlog has been delivered. Sampling, not proof.",
+   ROUTER_NOTE, "deterministic simulation with seeded scheduler, invariants + bounded liveness at quiescence"),
  "C13": ("logsim", "exploration", "DESIGN.md 5.5, 6/C13",
    "Seeded search over histories of appends interleaved with reads by independent cursor holders (fresh, stale, tag, continuation, fabricated cursors) on seeded segment geometries, each read checked against a reference vector; sampling, not proof.",
    "Trusted: the reference vector, and append()/_head_and_tail() as the observation of what is retained. Single-threaded (the log is owned by the router thread).",
